@@ -24,6 +24,14 @@ CHECKS = {
         note='Trusts the QR contract (validated numerically each run), z3, the symx engine (concrete-mode cross-validation), exact-real arithmetic. '
              'Outside: L>3, D>3, dtype promotion, rounding; factor^2 = sum|psi|^2 only via reconstruction + isometry.',
         design='6 C01'),
+    'C02': dict(
+        text='Histories are decided by ONE INDUCTIVE STEP PER OPERATION: from an arbitrary symbolic pre-state satisfying the representation invariant (array types, '
+             'len(qD) = bond dimensions, block sparsity, outer bonds 1) every public operation (constructors, orthonormalize, compress, +, -, @, apply, split, from_vector, '
+             'TDVP single/two-site step, DMRG single/two-site sweep, from_opgraph, all Hamiltonian constructors) is executed symbolically and the invariant plus boundary-charge '
+             'preservation (for states that are not structurally zero) is re-established on every path by SMT (QF_LIA on the symbolic charges).',
+        note='Trusts QR/SVD contracts, the Krylov-space stub (TDVP/DMRG local solver returns an arbitrary element of span{v, Av}), z3, engine. The induction covers histories whose '
+             'intermediate objects stay inside the shape bound (L<=2 quick / 3 thorough, D<=2); longer growth is outside. Replays re-run the step on seeded concrete pre-states with the z3 charge model.',
+        design='6 C02'),
     'C03': dict(
         text='add/sub/compose/apply/identity/dense conversion run on symbolic tensors (all independent bond profiles D<=2, L<=3, real and complex); '
              'dense(result) is compared with the dense expression of the operands as polynomial identities decided by SMT for all entry values; '
@@ -97,6 +105,21 @@ CHECKS = {
         note='Symbolic execution degenerates to enumeration here (every input bit is branched on); stated as exploration. Outside: 5x5 exhaustive, random 60x60 sampling.',
         design='6 C18',
         technique='re-execution DFS over symbolic 0/1 adjacency bits (z3 QF_LIA feasibility), exhaustive within the size bound; concrete Koenig certificate per path'),
+    'C19': dict(
+        text='Identity/aliasing monitors on the same symbolic executions as C02 plus scalar-valued operations, dense conversion, block QR/SVD/truncation and graph constructors: '
+             'operands snapshotted elementwise (object arrays hold immutable scalars => bit-for-bit), results share no array / list / node object with operands, follow-up mutation '
+             'of results leaves operands intact, in-place algorithms touch only their documented target (never the Hamiltonian or the other graph). Every charge pattern is a path, '
+             'which matters because copying depends on e.g. the already-sorted shortcut.',
+        note='Monitors are concrete per path; the paths come from symbolic execution (z3 feasibility). Outside: dtype-dependent in-place casting, shapes beyond the bound. Observed but outside the '
+             'property as stated: qr/split_matrix_svd return a view q0[:1] in the no-common-charge branch; as_vector of a single-site MPS is a view.',
+        design='6 C19'),
+    'C20': dict(
+        text='PARTIAL but including Schmidt-rank optimality within dense reach: for each built-in model (L<=4 d=2, L<=3 d=3/4, molecular L<=3) with generic symbolic parameters a DxD minor of the '
+             'reshaped symbolic operator is shown non-vanishing by z3 (QF_NRA witness), so bond dimension = operator Schmidt rank generically at every cut; for all chain lists in the C05 space '
+             'layer widths <= number of non-zero chains; simplify/merge/add never increase a layer width (C16 space).',
+        note='Trusts: MPO bond dimension D bounds the Schmidt rank (standard), a polynomial non-zero at one point is generically non-zero, z3, engine. Outside: larger L, spin-orbital molecular model, '
+             'minors larger than 6x6, non-generic parameters.',
+        design='6 C20'),
 }
 
 NOT_APPLICABLE = {
